@@ -9,6 +9,10 @@ Streams
   c01.sync  single-threaded lock/unlock/read_lock/read_unlock histories on Std::Sync::Mutex / RWMutex,
             compared per operation with the extracted wrapper model (fixed variant).
   c01.std   labelled fuzzing of std methods with boundary arguments (checks/c01_std.py), not proof.
+  c01.proto seeded method-call SEQUENCES (1-8 operations) on the stateful std objects a program can hold
+            (generators, collection/range/string iterators, channels, promises, Sync::Once, WaitGroup) inside small
+            typed programs (checks/c01_proto.py): gate on go_panic/go_fatal/signal, and stdout compared with the
+            extracted protocol model coq/Model/C01_Proto.v (generators on the machine of Model/C15_Gen.v).
 
 Program representation = the s-expression fed to ocaml/C01 (see its header), as nested Python lists.
 Types are bit masks: 1 Int, 2 true, 4 false, 8 nil, 16 String.
@@ -650,13 +654,24 @@ def run(ctx):
         "natives outside the core, generators, async, the real checker (only its rules as transcribed), the compiler. "
         "Those are reached by differential testing only: c01.prog runs generated core programs through `elk run` and "
         "compares outcome and output with the extracted interpreter; c01.sync does the same for lock histories; c01.std is "
-        "labelled fuzzing of std methods with boundary arguments and gates only on Go panic/fatal/signal.")
+        "labelled fuzzing of std methods with boundary arguments and gates only on Go panic/fatal/signal. Protocol sequences on "
+        "stateful std objects: C01_proto_sound (Model/C01_Proto.v: generators on the machine of Model/C15_Gen.v, collection and "
+        "range iterators, buffered channels, settled promises, Sync::Once) - every history of next/reset/for-in/push/pop/close/"
+        "await/call the checker accepts keeps the kind of every slot, so the typed-dispatch machine never meets another "
+        "representation, for all fuel; C01_proto_reset_restarts: reset = start over. That theorem is about the model of the "
+        "objects only: the compiler/VM code for suspension and reset is NOT proved and is reached by the stream c01.proto "
+        "(seeded sequences of 1-8 method calls inside small typed programs): go_panic/go_fatal/signal gate for all families; "
+        "stdout compared with the extracted model for generators, iterators, channels, promises, Once; crash-only for generator "
+        "bodies with a closure over a local, WaitGroup and Promise.wait.")
     ctx.trusted_base += [
         "Python generator and printer core program -> Elk source (checks/C01.py), outcome classifier (vlib.classify_elk)",
         "transcription of the checker rules (narrow.go narrowLocal, checkLocalVariableAssignment, if/while environments) "
         "into Model/C01_Core.v chk; closures are declared right after the locals of a method",
         "Go sync.Mutex/RWMutex modelled as a writer flag and a reader count observed by one thread",
         "c01.std: header parser and argument generator (checks/c01_std.py); fuzzing, not proof",
+        "c01.proto: Model/C15_Gen.v (generator machine, imported read-only), the Python printer of cases to Elk programs and of "
+        "model events to expected lines (checks/c01_proto.py); generated generator bodies never assign parameters and initialise "
+        "locals at the top, which makes `reset = start over` the reference for vm reset (ip rewind only)",
     ]
     ctx.run_proof_gate()
     elk = vlib.build_elk()
@@ -698,6 +713,14 @@ def run(ctx):
         import c01_std
     except ImportError:
         c01_std = None
+    try:
+        import c01_proto
+    except ImportError:
+        c01_proto = None
+    if c01_proto is not None:
+        c01_proto.run_proto(ctx, elk, m)
+    else:
+        ctx.broke("c01.proto: checks/c01_proto.py is missing")
     if c01_std is not None:
         c01_std.run_std(ctx, elk)
     else:
